@@ -60,6 +60,8 @@ func hostilePaths(dir, regularFile string) []string {
 	return []string{filepath.Join(dir, "does-not-exist"), dir, "/dev/null", filepath.Join(regularFile, "x"), filepath.Join(dir, strings.Repeat("n", 300)), filepath.Join(dir, "a\x00b"), ""}
 }
 
+var c19fifoBlocked bool
+
 func c19jsonStr(r *rand.Rand) string {
 	s := c13jsonStr(r)
 	if s == "" {
@@ -503,7 +505,7 @@ func (c19) Case(c *core.Ctx) {
 		fifo := filepath.Join(dir, "c19.fifo")
 		os.Remove(fifo)
 		paths := hostilePaths(dir, fn)
-		if syscall.Mkfifo(fifo, 0o644) == nil {
+		if !c19fifoBlocked && syscall.Mkfifo(fifo, 0o644) == nil {
 			paths = append(paths, fifo)
 			defer os.Remove(fifo)
 		}
@@ -529,6 +531,7 @@ func (c19) Case(c *core.Ctx) {
 					}
 					time.Sleep(50 * time.Millisecond)
 				}
+				c19fifoBlocked = true // reported once per process: every further attempt would cost another watchdog period
 				c.Violate("c19-bad-path-blocks", "a file reader given the name of something that is not a regular file (a FIFO without a writer) does not return", core.D{"path": p})
 				continue
 			}
